@@ -224,7 +224,8 @@ def check_aspa_coverage(ctx, f):
     guards = [
         ("customer-in-as-resources", pred_matcher(r"AsBlocks::contains_asn$", (r"^ResourceCert::as_resources\(cert\)$", r"^self\.customer_as$"))),
         ("no-inherited-as", pred_matcher(r"is_inherited$", (r"as_resources\(.*cert.*\)",), positive=False)),
-        ("no-ip-resources", pred_matcher(r"has_ip_resources$", (r"cert",), positive=False)),
+        # the test decided by the truth table above (the certificate's own extensions), not a namesake on another type
+        ("no-ip-resources", pred_matcher(r"(^|::)cert::TbsCert::has_ip_resources$", (r"cert",), positive=False)),
     ]
     for name, g in guards:
         mp = MustPass(f, lambda c: False, guard_fn=lambda bd, s, bb, g=g: guard_edges(bd, s, bb, g), name=name)
